@@ -20,6 +20,7 @@ pub mod task {
 pub static mut SPAWNED: usize = 0;
 pub static mut FAULTS: bool = false;
 pub static mut FAULTED: usize = 0;
+pub static mut FAULT_SEEN: usize = 0;
 pub static mut EAGER: usize = 0;
 pub static mut COMPLETED: usize = 0;
 pub static mut HANDLE_POLLS: usize = 0;
@@ -27,7 +28,7 @@ pub static mut SPAWNED_AT_FIRST_HANDLE_POLL: usize = 0;
 /// waker used for the eager poll at spawn time (the executor registers its root waker here)
 pub static mut ROOT: Option<Waker> = None;
 
-pub fn reset() { unsafe { SPAWNED = 0; FAULTS = false; FAULTED = 0; EAGER = 0; COMPLETED = 0; HANDLE_POLLS = 0; SPAWNED_AT_FIRST_HANDLE_POLL = 0; ROOT = None; } }
+pub fn reset() { unsafe { SPAWNED = 0; FAULTS = false; FAULTED = 0; FAULT_SEEN = 0; EAGER = 0; COMPLETED = 0; HANDLE_POLLS = 0; SPAWNED_AT_FIRST_HANDLE_POLL = 0; ROOT = None; } }
 
 fn rw_clone(_: *const ()) -> RawWaker { RawWaker::new(core::ptr::null(), &VT) }
 fn rw_nop(_: *const ()) {}
@@ -59,7 +60,7 @@ impl<F: Future> Future for JoinHandle<F> {
     type Output = Result<F::Output, task::JoinError>;
     fn poll(mut self: Pin<&mut Self>, cx: &mut Context<'_>) -> Poll<Self::Output> {
         unsafe { if HANDLE_POLLS == 0 { SPAWNED_AT_FIRST_HANDLE_POLL = SPAWNED; } HANDLE_POLLS += 1; }
-        if self.fault { return Poll::Ready(Err(task::JoinError)); }
+        if self.fault { unsafe { FAULT_SEEN += 1; } return Poll::Ready(Err(task::JoinError)); }
         if let Some(v) = self.out.take() { return Poll::Ready(Ok(v)); }
         let this = &mut *self;
         match this.fut.as_mut() {
